@@ -503,6 +503,27 @@ def r28_let_type(src, item, ed, opts):
         ed.count("R28")
 
 
+def r30_for_map(src, item, ed, opts):
+    """`for (K, V) in &M { B }` with M an opaque map -> a loop over `vx_map_entries(&M)`, the vector of
+    the map's entries (each exactly once, in the map's order: std's contract of map iteration);
+    increment first so that `continue` keeps its meaning (for_map=[{n=<loop ordinal>, entries="vx_map_entries", k="vx_j"}])"""
+    loops = nodes_of(item, "loop")
+    for sp in opts.get("for_map", []):
+        n = loops[sp["n"]] if sp["n"] < len(loops) else None
+        if n is None or n["loop_kind"] != "for":
+            raise LostAnchor(f"for-loop #{sp['n']} of {item['path']}")
+        ex = src.text(*n["expr"]).strip()
+        if not ex.startswith("&"):
+            raise Unsupported(f"R30 expects `for (k, v) in &M`, found `{ex}`")
+        m = ex[1:].strip()
+        k = sp.get("k", "vx_j")
+        es = sp.get("es", "vx_es")
+        pat = src.text(*n["pat"])
+        ed.replace(n["range"][0], n["body"][0], f"let {es} = {sp.get('entries', 'vx_map_entries')}(&{m}); let mut {k}: usize = 0; while {k} < {es}.len() ", "R30")
+        ed.insert(n["body"][0] + 1, f" let {pat} = {es}[{k}]; {k} += 1; ", "R30", prio=-5)
+        ed.count("R30")
+
+
 def r24_call_shim(src, item, ed, opts):
     """generic named-site shim (covers R5, R6, R8, R11, R17): a call / method call / macro named
     in the sidecar is replaced by a call to a prelude shim whose spec is the std contract.
@@ -677,6 +698,7 @@ RULES = {
     "R21": r21_for_rev,
     "R22": r22_for_enumerate,
     "R27": r27_for_vec,
+    "R30": r30_for_map,
     "R24": r24_call_shim,
 }
 
